@@ -117,6 +117,7 @@ func init() {
 		Rule:        "the header routine is swept over sizes x 14 formats (thorough: EVERY size 0..limit+64) and compared with the reference header; real items are built by the factories at every boundary size for all 14 formats (constructible iff n*w <= 16777215, header exact, decoded count equal); the decoder reads back every payload length of the sweep in every admissible 1/2/3-length-byte form; non-trivial = a header or decoded count was compared",
 		MemLimitGiB: 24,
 		Workers:     16,
+		WatchdogSec: 3600, // items of 16,777,215 elements legitimately take minutes; these checks have no hang oracle
 		Build: func(tier string, seed int64) []h.Space {
 			var sp []h.Space
 			const blk = 4096
